@@ -25,9 +25,41 @@ _CTX = z3.Context()
 _CACHE = {}
 
 
-def _plain(x):
-    """Concrete python int/bool out of a possibly symbolic value (only used on realised data)."""
-    return x
+_ATOMS = (int, bool, str, bytes, type(None), float)
+
+
+def _check_concrete(x, depth=0):
+    """Called with tracing OFF: every value handed to untraced real code must be a plain builtin."""
+    t = type(x)
+    if t in _ATOMS:
+        return
+    if t in (list, tuple, set, frozenset):
+        for y in x:
+            _check_concrete(y, depth + 1)
+        return
+    if t is dict:
+        for k, v in x.items():
+            _check_concrete(k, depth + 1)
+            _check_concrete(v, depth + 1)
+        return
+    if hasattr(x, "__verif_concrete__"):
+        for v in vars(x).values():
+            _check_concrete(v, depth + 1)
+        return
+    from vlib.hlib import HarnessError
+    raise HarnessError("symbolic or unexpected value %r of type %r reached an untraced call" % (x, t))
+
+
+def run_concrete(fn, *args, **kw):
+    """Run real code on REALISED inputs with CrossHair's opcode tracing switched off.
+
+    On a path where every input has already been made concrete by solver-decided forks, traced and
+    untraced execution compute the same thing; untraced is ~1000x faster.  The guard refuses anything
+    that is not a plain builtin value (a leaked symbolic would otherwise misbehave silently)."""
+    with NoTracing():
+        _check_concrete(args)
+        _check_concrete(kw)
+        return fn(*args, **kw)
 
 
 def _matching_solver(edges):
@@ -107,13 +139,14 @@ def pick(options, idx):
 
 def rel_from_bits(bits, P, S):
     """bits: sequence of booleans, row-major P x S (bit p*S+s <=> peer p holds share s).
-    Forks on every bit; returns a concrete list of sets rel[p] = {s,...}."""
+    Forks on every bit; returns a concrete list of lists rel[p] = [s,...] (plain lists: under CrossHair
+    tracing `set()` would create a ShellMutableSet stand-in; real sets are built in untraced code)."""
     rel = []
     for p in range(P):
-        row = set()
+        row = []
         for s in range(S):
             if bits[p * S + s]:
-                row.add(s)
+                row.append(s)
         rel.append(row)
     return rel
 
@@ -137,3 +170,109 @@ def bits_fixed(bits, fix):
 
 def rel_str(rel, S):
     return ",".join("".join("1" if s in row else "0" for s in range(S)) for row in rel)
+
+
+# ---- constrained placements (C07) -------------------------------------------------------------
+
+_PCACHE = {}
+
+
+def max_spread_z3(shares, allowed):
+    """Largest number of distinct servers used by any total assignment share -> server that only uses
+    pairs in `allowed` (a collection of (server, share)); None if no total assignment exists.
+    z3: Bool y[server, share] for each allowed pair, exactly one server per share, used[server] <-> OR y;
+    the optimum h is the value with SAT(#used >= h) and UNSAT(#used >= h + 1)."""
+    with NoTracing():
+        shares = sorted(set(shares))
+        allowed = sorted(set(allowed), key=repr)
+        key = (tuple(shares), tuple(allowed))
+        if key in _PCACHE:
+            return _PCACHE[key]
+        s = z3.Solver(ctx=_CTX)
+        y = {}
+        for i, (p, sh) in enumerate(allowed):
+            y[(p, sh)] = z3.Bool("y_%d" % i, ctx=_CTX)
+        for sh in shares:
+            mine = [y[e] for e in allowed if e[1] == sh]
+            if not mine:
+                _PCACHE[key] = None
+                return None
+            s.add(z3.AtMost(*(mine + [1])))
+            s.add(z3.Or(*mine))
+        servers = sorted(set(p for (p, _) in allowed), key=repr)
+        used = []
+        for j, p in enumerate(servers):
+            u = z3.Bool("u_%d" % j, ctx=_CTX)
+            s.add(u == z3.Or(*[y[e] for e in allowed if e[0] == p]))
+            used.append(z3.If(u, 1, 0))
+        total = z3.Sum(used)
+        h = 0
+        while True:
+            s.push()
+            s.add(total >= h + 1)
+            r = s.check()
+            s.pop()
+            if r == z3.sat:
+                h += 1
+                continue
+            if r != z3.unsat:
+                raise RuntimeError("z3 returned %r in placement oracle" % (r,))
+            break
+        if h == 0:
+            # h + 1 = 1 infeasible although every share has a candidate: impossible unless there are no shares
+            h = 0
+        _PCACHE[key] = h
+        return h
+
+
+def max_merged_happiness_z3(shares, allowed, existing):
+    """max over total assignments a (within `allowed`) of the maximum matching of existing U a.
+    One z3 problem: assignment variables y, matching variables m over (existing U chosen) edges."""
+    with NoTracing():
+        shares = sorted(set(shares))
+        allowed = sorted(set(allowed), key=repr)
+        existing = sorted(set(existing), key=repr)
+        key = ("h", tuple(shares), tuple(allowed), tuple(existing))
+        if key in _PCACHE:
+            return _PCACHE[key]
+        s = z3.Solver(ctx=_CTX)
+        y = {}
+        for i, e in enumerate(allowed):
+            y[e] = z3.Bool("y_%d" % i, ctx=_CTX)
+        for sh in shares:
+            mine = [y[e] for e in allowed if e[1] == sh]
+            if not mine:
+                _PCACHE[key] = None
+                return None
+            s.add(z3.AtMost(*(mine + [1])))
+            s.add(z3.Or(*mine))
+        alledges = sorted(set(allowed) | set(existing), key=repr)
+        m = {}
+        ex = set(existing)
+        for i, e in enumerate(alledges):
+            m[e] = z3.Bool("m_%d" % i, ctx=_CTX)
+            if e not in ex:
+                s.add(z3.Implies(m[e], y[e]))      # a non-existing edge can be matched only if it was placed
+        for p in sorted(set(p for (p, _) in alledges), key=repr):
+            mine = [m[e] for e in alledges if e[0] == p]
+            if len(mine) > 1:
+                s.add(z3.AtMost(*(mine + [1])))
+        for sh in sorted(set(sh for (_, sh) in alledges)):
+            mine = [m[e] for e in alledges if e[1] == sh]
+            if len(mine) > 1:
+                s.add(z3.AtMost(*(mine + [1])))
+        total = z3.Sum([z3.If(v, 1, 0) for v in m.values()]) if m else z3.IntVal(0, ctx=_CTX)
+        h = 0
+        while True:
+            s.push()
+            s.add(total >= h + 1)
+            r = s.check()
+            s.pop()
+            if r == z3.sat:
+                h += 1
+                continue
+            if r != z3.unsat:
+                raise RuntimeError("z3 returned %r in happiness oracle" % (r,))
+            break
+        _PCACHE[key] = h
+        return h
